@@ -173,6 +173,9 @@ Fixpoint enum_vals (fuel : nat) (d : N) (p : pref) : list Z :=
              let v := getBitVal d p in v :: enum_vals f (clearBit d v) p
   end.
 
+(** the values of a domain in the order solveRecursive tries them *)
+Definition dom_vals (d : N) (p : pref) : list Z := enum_vals 64 d p.
+
 (** the constraint test of solveRecursive at variable [varNo] *)
 Definition check_var (cs : list constr) (vals : list Z) (varNo : nat) : bool :=
   forallb (fun c =>
@@ -186,27 +189,30 @@ Section SolveRec.
   Variable ds : list N.
   Variable ps : list pref.
 
+  (** the [while (!d.empty())] loop of solveRecursive over the values in preference order;
+      [rec] is the recursive call for the next variable, [last] says varNo = nValues-1 *)
+  Fixpoint try_vals (rec : list Z -> N -> option (list Z) * N) (last : bool)
+           (varNo : nat) (vals : list Z) (l : list Z) (nodes : N) : option (list Z) * N :=
+    match l with
+    | [] => (None, nodes)
+    | v :: l' =>
+        let vals' := upd vals varNo v in
+        if check_var cs vals' varNo then
+          if last then (Some vals', nodes)
+          else match rec vals' nodes with
+               | (Some r, n') => (Some r, n')
+               | (None, n') => try_vals rec last varNo vals l' n'
+               end
+        else try_vals rec last varNo vals l' nodes
+    end.
+
   Fixpoint solveRec (nrem : nat) (varNo : nat) (vals : list Z) (nodes : N)
     : option (list Z) * N :=
     match nrem with
     | O => (None, nodes)
     | S k =>
-        (fix loop (l : list Z) (nodes : N) : option (list Z) * N :=
-           match l with
-           | [] => (None, nodes)
-           | v :: l' =>
-               let vals' := upd vals varNo v in
-               if check_var cs vals' varNo then
-                 match k with
-                 | O => (Some vals', nodes)
-                 | S _ =>
-                     match solveRec k (S varNo) vals' nodes with
-                     | (Some r, n') => (Some r, n')
-                     | (None, n') => loop l' n'
-                     end
-                 end
-               else loop l' nodes
-           end) (enum_vals 64 (nth varNo ds 0%N) (nth varNo ps SMALL)) (N.succ nodes)
+        try_vals (solveRec k (S varNo)) (match k with O => true | S _ => false end) varNo vals
+                 (dom_vals (nth varNo ds 0%N) (nth varNo ps SMALL)) (N.succ nodes)
     end.
 End SolveRec.
 
